@@ -61,10 +61,26 @@ def index_tracks(chk, facts, rule='index-tracks-event-counter'):
 
 def run(chk, facts, tier):
     chk.rule('reset-validates-first', 'channel_map::reset(map, hop): every store to map_ and `return true` are control dependent on !(hop < 5 || hop > 16) and !(used_channels_count < 2)', floor=3)
+    chk.rule('map-update-keeps-hop', 'channel_map::reset(map) (channel map update of a running connection) rebuilds the table with the hop increment stored by reset(map, hop), a field nothing else writes', floor=1)
     chk.rule('csa1-shape', 'unmapped channel advances by hop modulo 37 from hop; used channel -> itself, unused -> used_channels[unmapped % count]; used_channels collected ascending by channel', floor=3)
     chk.rule('index-tracks-event-counter', 'connection_state_base: every function that changes event_counter_ changes channel_index_ by the same step modulo 37 (and resets both together); '
              'where the step is signed, the constant added to keep the unsigned sum from wrapping is a multiple of 37 and at least the maximum peripheral latency (499)', floor=4)
     chk.rule('connect-needs-valid-map', 'link_layer::adv_received enters connecting only when channels_.reset(map, hop) returned true; hop is body[33] & 0x1f; a deferred channel map indication does not survive its connection', floor=2)
+    # channel map update: same hop increment, taken from a field that only reset(map, hop) writes (with the validated hop)
+    for fn in [f for f in variants(facts, CM + 'reset', chk) if len(f.params) == 1]:
+        rs = fn.returns()
+        call = ret_value(rs[0]) if len(rs) == 1 else None
+        ok = call is not None and call.is_call('reset') and len(call.args()) == 2 and is_name(call.args()[0], fn.params[0]['n'])
+        why = 'reset(map) does not delegate to reset(map, hop)'
+        if ok:
+            h = strip_casts(call.args()[1])
+            ok = h.k == 'MemberExpr' and h.n is not None
+            why = 'the hop increment used for a channel map update (%s) is not the stored hop of the connection' % h.text()[:40]
+            if ok:
+                ws = [(g, op, val) for g, tgt, op, val, st in field_stores(facts, h.n, CM) if op != 'init']
+                ok = bool(ws) and all(g.name == 'reset' and len(g.params) == 2 and op == '=' and is_name(val, g.params[1]['n']) for g, op, val in ws)
+                why = 'the stored hop increment %s is written by something else than reset(map, hop) = hop' % h.n
+        chk.instance('map-update-keeps-hop', fn, 'reset(map) = reset(map, <hop stored by reset(map, hop)>)', ok, '' if ok else why + ': after LL_CHANNEL_MAP_IND the hop sequence is built with a different increment than the central uses', key='reset1')
     fns = [f for f in variants(facts, CM + 'reset', chk) if len(f.params) == 2]
     chk.require(bool(fns), 'channel_map::reset(map, hop) not found')
     for fn in fns:
